@@ -42,6 +42,13 @@ CHECKS = {
         technique="deterministic simulation of emitted VHDL with seeded agents and stall/reset fault injection; exactly-once event-history oracle + bounded liveness",
         ref="6/C15",
     ),
+    "C14": dict(
+        level="exploration",
+        text="Wrapper entities around std.Fifo (element types Unsigned/BitVector/Signed/Record/std.Array, capacities N=2..9, one process / two contexts without delay / two contexts with tx/rx delays 0..3, consumer via pop() or await receive(), with and without reset) and std.Stack (N=1..8, NO_OVERFLOW and DROP_OLD) are compiled by the real compiler and run in VSIM. Producer and consumer agents (unique payloads; fill / drain / mixed phases) keep the documented preconditions through the DUT's own full()/empty() view; faults are stalls of either context, resets mid-traffic, process order and input offsets. Oracle: deque / list model checked every clock (order, loss, duplication, push beyond capacity, pop from empty, exact empty/full/size/front, LIFO order, drop-oldest), emitted assertions silent, bounded progress; reach probes (wrap-around, full, push+pop at occupancy 0/1/N-2/N-1) must be non-zero.",
+        note="Trusted: VSIM, agents, deque/list models. With delays only the unsafe direction of the flags is checked (conservative lag is allowed).",
+        technique="deterministic simulation of emitted VHDL with seeded producer/consumer agents and stall/reset faults; per-clock comparison with queue/stack reference models + bounded liveness",
+        ref="6/C14",
+    ),
 }
 
 NOT_APPLICABLE = {
